@@ -267,6 +267,16 @@ func modelPgTypeForOID(e *Exec, c *frame, fn *ssa.Function, a []Value) Value {
 	}
 	e.noteRead(recv)
 	oid := a[1].(sym.Sc)
+	// types registered on THIS map (RegisterType) come first, latest first
+	if regs := e.pgRegistered[recv]; len(regs) > 0 {
+		tt := e.M.namedType("github.com/jackc/pgx/v5/pgtype", "Type")
+		oi := structFieldIndex(tt, "OID")
+		for i := len(regs) - 1; i >= 0; i-- {
+			if e.Branch(sym.Eq(oid, (*regs[i]).(Struct)[oi].(sym.Sc))) {
+				return Tuple{regs[i], sym.Bool(true)}
+			}
+		}
+	}
 	mk := func(codec, name string, id uint64) Value {
 		codecT := e.M.namedType("github.com/jackc/pgx/v5/pgtype", codec)
 		p := new(Value)
@@ -523,4 +533,23 @@ func init() {
 			return sym.Bool(false)
 		}
 	}
+}
+
+// RegisterType: remembered per map (a customisation made on one map is visible
+// to whoever uses that map afterwards, and to nobody else). Writes its receiver.
+func modelPgRegisterType(e *Exec, c *frame, fn *ssa.Function, a []Value) Value {
+	recv := a[0].(*Value)
+	if recv == nil {
+		e.goPanic("invalid memory address or nil pointer dereference")
+	}
+	e.noteWrite(recv)
+	t, _ := a[1].(*Value)
+	if t == nil {
+		e.goPanic("invalid memory address or nil pointer dereference")
+	}
+	if e.pgRegistered == nil {
+		e.pgRegistered = map[*Value][]*Value{}
+	}
+	e.pgRegistered[recv] = append(e.pgRegistered[recv], t)
+	return nil
 }
